@@ -109,8 +109,9 @@ class EmitV3(V3Unit):
     props = ("C05", "C07", "C10", "C11", "C12", "C14")
     label = "proved-shape-bounded(binding list of the enumerated length; every leaf symbolic)"
 
-    def __init__(self, level, op, k, ctx_engine_given, reply="ok"):
+    def __init__(self, level, op, k, ctx_engine_given, reply="ok", interference=False):
         self.level, self.op, self.k, self.ctx_engine_given, self.reply = level, op, k, ctx_engine_given, reply
+        self.interference = interference
         self.target = "puresnmp.api.raw:Client.%s" % op
         self.functions = (self.target, "puresnmp.api.raw:Client._send", "puresnmp.api.raw:Client.__init__",
                           "puresnmp_plugins.mpm.v3:V3MPM.encode", "puresnmp_plugins.mpm.v3:is_confirmed",
@@ -129,8 +130,11 @@ class EmitV3(V3Unit):
             self.props = ("C12",)
         elif not LEVELS[level][1]:
             self.props = tuple(p for p in self.props if p != "C11")
-        self.name = "v3 %s %s[%d oids, context engine %s, discovery reply %s]" % (
-            level, op, k, "given" if ctx_engine_given else "default", reply)
+        if interference:
+            self.props = ("C14",)
+        self.name = "v3 %s %s[%d oids, context engine %s, discovery reply %s%s]" % (
+            level, op, k, "given" if ctx_engine_given else "default", reply,
+            ", other tasks interfere at every await" if interference else "")
 
     def run(self, interp):
         ctx, rt = interp.ctx, self.rt
@@ -166,6 +170,37 @@ class EmitV3(V3Unit):
         fn = get_func(rt, interp, self.target)
         tag, _ = OPS[self.op]
         f1 = f2 = 0
+        mproc = client.fields["mpm"]
+        w_before = set(mproc.fields)
+        awaits = {"n": 0, "at_timing": None, "at_generate": None}
+        B_used, T_used = [B], [Tm]
+        if self.interference:
+            # rely condition Inv_W: at every await another task of the same client may complete a discovery of the SAME
+            # agent (same engine id, any boots/time) and store it, and may store that timing for the engine
+            disco_cls = get_cls(rt, interp, "puresnmp_plugins.security.usm:DiscoData")
+
+            def other_tasks(i):
+                awaits["n"] += 1
+                if ctx.branch(ctx.fresh_bool("other_task_stored_its_discovery")):
+                    b2, t2 = ctx.fresh_int("other_boots"), ctx.fresh_int("other_time")
+                    mproc.fields["disco"] = Obj(disco_cls, {"authoritative_engine_id": E, "authoritative_engine_boots": b2,
+                                                             "authoritative_engine_time": t2, "unknown_engine_ids": ctx.fresh_int("cnt")})
+                    sm = mproc.fields.get("security_model")
+                    if sm is not None:
+                        sm.fields["local_config"] = PDict([(E, PDict([("authoritative_engine_boots", b2), ("authoritative_engine_time", t2)]))])
+            rt.after_await = other_tasks
+            orig_timing = rt.hooks.get("puresnmp_plugins.security.usm:UserSecurityModel.set_engine_timing")
+
+            def timing(i, c, a, k):
+                awaits["at_timing"] = awaits["n"]
+                B_used[0], T_used[0] = a[2], a[3]
+                return NotImplemented
+            rt.hooks["puresnmp_plugins.security.usm:UserSecurityModel.set_engine_timing"] = timing
+
+            def generate(i, c, a, k):
+                awaits["at_generate"] = awaits["n"]
+                return NotImplemented
+            rt.hooks["puresnmp_plugins.security.usm:UserSecurityModel.generate_request_message"] = generate
         kwargs = {}
         if self.op == "multiset":
             for i in range(self.k):
@@ -184,8 +219,18 @@ class EmitV3(V3Unit):
             interp.call(BoundMethod(fn, client), args, kwargs)
         except PyExc as pe:
             exc = pe.obj
+        finally:
+            rt.after_await = None
         T = self.target
         P = [p for p in self.props]
+        B, Tm = B_used[0], T_used[0]          # (interference: the timing of whichever discovery result was current)
+        ctx.check(oname("C14", "puresnmp_plugins.mpm.v3:V3MPM.encode", "frame",
+                        "shared-writes-stay-inside-{security_model,disco,local_config}"),
+                  set(mproc.fields) - w_before <= {"disco", "security_model"})
+        if self.interference and awaits["at_generate"] is not None:
+            ctx.check(oname("C14", "puresnmp_plugins.mpm.v3:V3MPM.encode", "ensures",
+                            "no-await-between-set_engine_timing-and-generate_request_message"),
+                      awaits["at_timing"] == awaits["at_generate"])
 
         def chk(props, func, kind, label, cond, **kw):
             for p in props:
@@ -335,6 +380,9 @@ def units_emit(tier):
     us.append(EmitV3("authNoPriv-md5", "multiset", 2, True))
     us.append(EmitV3("noAuthNoPriv", "multiget", 1, True))
     us.append(EmitV3("authNoPriv-md5", "multiget", 1, False, reply="no-bindings"))
+    us.append(EmitV3("authPriv-md5", "multiget", 1, False, interference=True))
+    us.append(EmitV3("authPriv-sha1", "multiset", 1, True, interference=True))
+    us.append(EmitV3("noAuthNoPriv", "bulkget", 1, False, interference=True))
     if tier == "thorough":
         for lv in levels:
             for op in OPS:
